@@ -763,7 +763,7 @@ def write_smf_raw(tpb, tracks):
             elif k == "ts":
                 data += bytes([0xFF, 0x58, 4, e["num"], e["den"].bit_length() - 1, 24, 8])
             elif k == "ks":
-                data += bytes([0xFF, 0x59, 2, e["sf"] & 0xFF, 0])
+                data += bytes([0xFF, 0x59, 2, e["sf"] & 0xFF, 1 if e.get("minor") else 0])
             elif k == "pc":
                 st = 0xC0 | e["ch"]
                 if st != status:
@@ -775,6 +775,9 @@ def write_smf_raw(tpb, tracks):
     return bytes(out)
 
 
+# mido reports minor keys as e.g. 'Am'; S-Coda's Key enum has the fifteen major keys only and stores the relative major
+_MINOR = {"Am": "C", "Em": "G", "Bm": "D", "F#m": "A", "C#m": "E", "G#m": "B", "D#m": "F#", "Dm": "F", "Gm": "Bb", "Cm": "Eb",
+          "Fm": "Ab", "Bbm": "Db", "Ebm": "Gb"}
 _SF = {"C": 0, "G": 1, "D": 2, "A": 3, "E": 4, "B": 5, "F#": 6, "C#": 7, "F": -1, "Bb": -2, "Eb": -3, "Ab": -4, "Db": -5,
        "Gb": -6, "Cb": -7}
 
@@ -798,7 +801,7 @@ def write_smf_mido(tpb, tracks):
             elif k == "ts":
                 tr.append(mido.MetaMessage("time_signature", numerator=e["num"], denominator=e["den"], time=dt))
             elif k == "ks":
-                tr.append(mido.MetaMessage("key_signature", key=e["key"], time=dt))
+                tr.append(mido.MetaMessage("key_signature", key=e.get("file_key", e["key"]), time=dt))
             elif k == "pc":
                 tr.append(mido.Message("program_change", channel=e["ch"], program=e["prog"], time=dt))
         mf.tracks.append(tr)
@@ -860,7 +863,8 @@ def gen_c13_file(rng, tier):
         last_end = {}
         chans = [rng.randrange(0, 16) for _ in range(rng.choice([1, 1, 2]))]
         pitches = sorted({rng.randrange(21, 109) for _ in range(rng.randrange(1, 5))})
-        pos = 0
+        # now and then the music starts far out (beyond 2**24 file ticks: single-precision arithmetic would show)
+        pos = 0 if rng.random() < 0.92 else rng.choice([tpb * 4000, 1 << 24, (1 << 24) + rng.randrange(0, 10 * tpb)])
         for _ in range(n_notes if rng.random() < 0.9 else 0):
             ch = rng.choice(chans)
             p = rng.choice(pitches)
@@ -872,6 +876,9 @@ def gen_c13_file(rng, tier):
             as_on0 = rng.random() < 0.4
             tracks[tr].append({"tick": on, "k": "on", "ch": ch, "pitch": p, "vel": vel})
             tracks[tr].append({"tick": on + dur, "k": "off", "ch": ch, "pitch": p, "as_on0": as_on0, "vel": rng.choice([0, 64])})
+            # same (channel, pitch) notes of a group stay >= 2 library ticks apart: on an exact .5 tie the two ends of touching
+            # notes may legitimately round to different ticks, the notes then overlap by one tick and are fused - the
+            # *sounding set* is still the union, but a note-by-note comparison would raise a false alarm (it did, once)
             last_end[(ch, p)] = on + dur + min_len
     # signatures: on arbitrary tracks; distinct positions >= 2 library ticks apart, never on an exact rounding tie
     horizon = max([e["tick"] for tr in tracks for e in tr] + [4 * tpb])
@@ -888,11 +895,16 @@ def gen_c13_file(rng, tier):
     for tick in sorted(sig_ticks):
         tr = rng.randrange(ntracks)
         if rng.random() < 0.6:
-            nd = rng.choice([(4, 4), (3, 4), (6, 8), (2, 2), (5, 4), (7, 8), (12, 8), (3, 16)])
+            nd = rng.choice([(4, 4), (3, 4), (6, 8), (2, 2), (5, 4), (7, 8), (12, 8), (3, 16),
+                             (rng.randrange(1, 33), rng.choice([1, 2, 4, 8, 16, 32]))])
             tracks[tr].append({"tick": tick, "k": "ts", "num": nd[0], "den": nd[1]})
         else:
-            k = rng.choice(music.KEYS)
-            tracks[tr].append({"tick": tick, "k": "ks", "key": k, "sf": _SF[k]})
+            if rng.random() < 0.25:
+                mk = rng.choice(sorted(_MINOR))
+                tracks[tr].append({"tick": tick, "k": "ks", "key": _MINOR[mk], "file_key": mk, "sf": _SF[_MINOR[mk]], "minor": 1})
+            else:
+                k = rng.choice(music.KEYS)
+                tracks[tr].append({"tick": tick, "k": "ks", "key": k, "sf": _SF[k]})
     if rng.random() < 0.3:
         tr = rng.randrange(ntracks)
         tracks[tr].append({"tick": rng.choice([0, rng.randrange(0, horizon + 1)]), "k": "pc", "ch": rng.randrange(16), "prog": rng.randrange(128)})
